@@ -310,3 +310,67 @@ pub fn sigma_block(x: i32, m: i32, n: i32, d: i32) -> i32 {
     else if d < 0 && m + d <= x && x < m { x + n }
     else { x }
 }
+
+// ---------------------------------------------------------------------------------------------
+// fork-free *observable* equality of a column / row between two layouts (what the getters would show,
+// not how it is stored: a descriptor with custom_width = false shows the default width whatever it stores,
+// a missing descriptor shows the defaults)
+
+const DEF_W: f64 = 10.0;   // DEFAULT_COLUMN_WIDTH / COLUMN_WIDTH_FACTOR
+const DEF_H: f64 = 16.0;   // DEFAULT_ROW_HEIGHT / ROW_HEIGHT_FACTOR
+
+fn col_shows_same(a: &Col, b: &Col) -> bool {
+    (a.hidden == b.hidden) & (a.style == b.style)
+        & ((a.custom_width & b.custom_width & (a.width == b.width)) | (!a.custom_width & !b.custom_width)
+           | (a.custom_width & !b.custom_width & (a.width == DEF_W)) | (!a.custom_width & b.custom_width & (b.width == DEF_W)))
+}
+fn col_shows_defaults(a: &Col) -> bool { !a.hidden & a.style.is_none() & (!a.custom_width | (a.width == DEF_W)) }
+
+pub fn col_obs_same(a: &[Col], x: i32, b: &[Col], y: i32) -> bool {
+    let (mut cov_a, mut cov_b, mut ok) = (false, false, true);
+    let mut i = 0;
+    while i < a.len() { cov_a |= covers(&a[i], x); i += 1; }
+    let mut j = 0;
+    while j < b.len() { cov_b |= covers(&b[j], y); j += 1; }
+    i = 0;
+    while i < a.len() {
+        ok &= !(covers(&a[i], x) & !cov_b) | col_shows_defaults(&a[i]);
+        j = 0;
+        while j < b.len() {
+            ok &= !(covers(&a[i], x) & covers(&b[j], y)) | col_shows_same(&a[i], &b[j]);
+            j += 1;
+        }
+        i += 1;
+    }
+    j = 0;
+    while j < b.len() { ok &= !(covers(&b[j], y) & !cov_a) | col_shows_defaults(&b[j]); j += 1; }
+    ok
+}
+
+fn row_style_same(a: &Row, b: &Row) -> bool {
+    (a.custom_format & b.custom_format & (a.s == b.s)) | (!a.custom_format & !b.custom_format)
+        | (a.custom_format & !b.custom_format & (a.s == 0)) | (!a.custom_format & b.custom_format & (b.s == 0))
+}
+fn row_shows_same(a: &Row, b: &Row) -> bool { (a.hidden == b.hidden) & (a.height == b.height) & row_style_same(a, b) }
+fn row_shows_defaults(a: &Row) -> bool { !a.hidden & (a.height == DEF_H) & (!a.custom_format | (a.s == 0)) }
+
+pub fn row_obs_same(a: &[Row], x: i32, b: &[Row], y: i32) -> bool {
+    let (mut cov_a, mut cov_b, mut ok) = (false, false, true);
+    let mut i = 0;
+    while i < a.len() { cov_a |= a[i].r == x; i += 1; }
+    let mut j = 0;
+    while j < b.len() { cov_b |= b[j].r == y; j += 1; }
+    i = 0;
+    while i < a.len() {
+        ok &= !((a[i].r == x) & !cov_b) | row_shows_defaults(&a[i]);
+        j = 0;
+        while j < b.len() {
+            ok &= !((a[i].r == x) & (b[j].r == y)) | row_shows_same(&a[i], &b[j]);
+            j += 1;
+        }
+        i += 1;
+    }
+    j = 0;
+    while j < b.len() { ok &= !((b[j].r == y) & !cov_a) | row_shows_defaults(&b[j]); j += 1; }
+    ok
+}
